@@ -137,18 +137,73 @@ def parseTable (s : String) : Option (List Method) :=
 
 def Method.render (m : Method) : String := s!"{m.mode.toString} {m.access.toString}"
 
-/-- verdict over a table text: `safe` / `racy <first offending method>` -/
+/-- verdict over a table extracted from the current source: `safe` iff `raceFree` (the decidable
+    predicate the theorems `disciplined_raceFree` / `raceFree_disciplined` / `linearizable` are
+    about); otherwise `racy <first method that breaks the monitor rule>`.  A method split into
+    several critical sections was parsed as unlocked, so check-then-act shows up here. -/
 def verdict (t : List Method) : String :=
-  if disciplined t then "safe"
+  if raceFree t then "safe"
   else match t.find? (fun m => !wellLocked m) with
-    | some m => if raceFree t then "safe" else s!"racy {m.name}"
-    | Option.none => "safe"
+    | some m => s!"racy {m.name}"
+    | Option.none => "racy"
 
 def ofTriples (t : List (String × String × String)) : Option (List Method) :=
   t.mapM fun (n, m, a) => do
     let m ← Mode.ofString? m
     let a ← Access.ofString? a
     pure { name := n, mode := m, access := a }
+
+/-- lock mode / access of the method called `name` in a table (absent: no lock, no access) -/
+def modeIn (t : List Method) (name : String) : Mode :=
+  match t.find? (·.name == name) with
+  | some m => m.mode
+  | Option.none => .none
+
+def accessIn (t : List Method) (name : String) : Access :=
+  match t.find? (·.name == name) with
+  | some m => m.access
+  | Option.none => .pure
+
+theorem writer_of_accessIn {t : List Method} {name : String} (h : accessIn t name = .writes) :
+    ∃ m ∈ t, m.access = .writes := by
+  unfold accessIn at h
+  cases hf : t.find? (·.name == name) with
+  | none => rw [hf] at h; cases h
+  | some m => rw [hf] at h; exact ⟨m, List.mem_of_find?_eq_some hf, h⟩
+
+/-- in a race-free table a method classified as a writer holds the exclusive lock -/
+theorem modeIn_lock {t : List Method} (hrf : raceFree t = true) {name : String}
+    (h : accessIn t name = .writes) : modeIn t name = .lock := by
+  have hd := raceFree_disciplined t hrf (writer_of_accessIn h)
+  unfold accessIn at h
+  unfold modeIn
+  cases hf : t.find? (·.name == name) with
+  | none => rw [hf] at h; cases h
+  | some m =>
+    rw [hf] at h
+    simp only [disciplined, List.all_eq_true] at hd
+    have hw := hd m (List.mem_of_find?_eq_some hf)
+    obtain ⟨n, mo, ac⟩ := m
+    simp only at h
+    subst h
+    simpa [wellLocked] using hw
+
+/-- in a race-free table that has a writer, a method classified as a reader holds some lock -/
+theorem modeIn_ne_none {t : List Method} (hrf : raceFree t = true) (hw : ∃ m ∈ t, m.access = .writes)
+    {name : String} (h : accessIn t name = .reads) : modeIn t name ≠ .none := by
+  have hd := raceFree_disciplined t hrf hw
+  unfold accessIn at h
+  unfold modeIn
+  cases hf : t.find? (·.name == name) with
+  | none => rw [hf] at h; cases h
+  | some m =>
+    rw [hf] at h
+    simp only [disciplined, List.all_eq_true] at hd
+    have hw := hd m (List.mem_of_find?_eq_some hf)
+    obtain ⟨n, mo, ac⟩ := m
+    simp only at h
+    subst h
+    simpa [wellLocked] using hw
 
 /-! ## Part 2: concurrent executions under a reader/writer lock -/
 
